@@ -18,11 +18,12 @@ func ProfileFor(prop string) *Profile {
 	w := p.Weights
 	switch prop {
 	case "C01":
-		p.MaxIdx = 1
+		p.MaxIdx = 2
 		p.AltKeyStyles, p.AltKeyProb = []string{"adversarial", "numeric"}, 0.3
 		w["put"], w["update"], w["delete"], w["get"] = 4, 4, 3, 3
 		w["putcond"], w["updcond"], w["delcond"] = 0.4, 0.4, 0.4
 		w["bad"], w["idxtype"], w["toggle"], w["scan"] = 0.3, 0.2, 0.1, 0.3
+		w["idxdrop"], w["idxcreate"] = 0.15, 0.15
 	case "C02":
 		p.MaxIdx = 3
 		p.AltKeyStyles, p.AltKeyProb = []string{"numeric"}, 0.3
